@@ -527,7 +527,9 @@ register("C05", {
 register("C06", {
     "level": "fault_enumeration",
     "rule": "same sweep as C05 (every cancel point and every fault index on seeded bases of "
-            "all connection types, three executors, seams L1 and L2, plus the evictor base); "
+            "all connection types incl. a UNIX domain socket, three executors, seams L1 and L2, "
+            "plus the evictor base), plus conversations of every connection type whose peer "
+            "bytes are corrupted at every stage (bit flips, truncation, duplication, junk); "
             "oracle = socket ledger: no orphan stream at quiescence, no stream open after the "
             "pool is closed",
     "assumptions": ["a stream is owned if it is reachable from pool.connections",
